@@ -304,6 +304,7 @@ CLAIM = {
     "level": "other",
     "design_ref": "DESIGN.md section 4 C12",
     "technique": "static: abstract interpretation of the derivation chain and resize logic on symbolic capacities; effect-object inspection for hash/PRG/labels",
-    "text": "Decides determinism and history independence as structure: which hash, which domain string and label bytes, which PRG, how many draws are skipped and taken on every resize path, and that G and H chains carry different tags.",
+    "text": "Decides determinism and history independence as structure: which hash, which domain string and label bytes, which PRG, how many draws are skipped and taken on every resize path, that G and H chains carry different tags, "
+    "and the aggregated (n, m) views as a five-case transition system (party-major enumeration of the first n generators of the first m parties by induction over calls).",
     "note": "trusted: pinned SHA3-512, ChaCha20, arkworks UniformRand for curve points (distinctness / subgroup membership not decided)",
 }
